@@ -290,6 +290,39 @@ def bounded_arrivals(reg, tier, seed):
                 samples.append([str(t) for t in trace[:8]])
         finally:
             env.close()
+    # a block-scoped subscription (subscribe_async) that is drained only after a burst: every unreliable packet of the burst is there
+    env = Env()
+    try:
+        burst = 1500 if tier == "quick" else 5000
+
+        async def burst_case():
+            got_ = []
+            with env.sh.subscribe_async(("AgentDataUpdate",), take=False) as get_s, env.rh.subscribe_async(("AgentDataUpdate",), take=False) as get_r:
+                for k_ in range(burst):
+                    m_ = Message("CompletePingCheck", Block("PingID", PingID=k_ % 256), packet_id=10_000 + k_, direction=Direction.IN)
+                    m_.name = "CompletePingCheck"
+                    mm = Message("AgentDataUpdate", Block("AgentData", AgentID=UUID_ZERO(), FirstName="a", LastName="b", GroupTitle="", ActiveGroupID=UUID_ZERO(),
+                                                          GroupPowers=0, GroupName=""), packet_id=20_000 + k_, direction=Direction.IN)
+                    env.proto.datagram_received(ser.serialize(mm), env.sim)
+                for getter in (get_s, get_r):
+                    n_ = 0
+                    try:
+                        while True:
+                            await asyncio.wait_for(getter(), 0.01)
+                            n_ += 1
+                    except asyncio.TimeoutError:
+                        pass
+                    got_.append(n_)
+            return got_
+        evals += burst
+        seen.add(("burst", burst))
+        counts = env.loop.run_until_complete(burst_case())
+        if counts != [burst, burst]:
+            fail("client/dispatch", f"a burst of {burst} unreliable packets: the block-scoped subscribers at session / region level were handed {counts}", {"burst": burst})
+    except Exception as ex:  # noqa
+        fail("client/raise", f"burst scenario raised {type(ex).__name__}: {ex}", {})
+    finally:
+        env.close()
     return {"name": "client-arrival-sequences", "evaluations": evals, "distinct_nontrivial": len(seen),
             "rule": f"{runs} seeded arrival sequences (5..35 events) over {{reliable, duplicate of an earlier reliable, unreliable, our reliable send, "
                     "ack appended, ack as PacketAck, clock tick past the resend interval, reliable packet whose body is cut short}} with optional raising subscriber at either level; "
